@@ -50,7 +50,7 @@ def describe(v, depth=0):
     return t.__name__
 
 
-def execute(mod, wl, i, traced, k, fault, tbl):
+def execute(mod, wl, i, traced, k, fault, tbl, rate=None):
     """run one workload; returns the observable behaviour"""
     mod.JOURNAL.clear()
     mod.Lazy.resolved = 0
@@ -66,7 +66,7 @@ def execute(mod, wl, i, traced, k, fault, tbl):
                     from monkeytype.tracing import trace_calls
                     logger = tracerun.ListLogger(fail_log_at=fault[1], fail_flush=fault[2])
                     admit = lambda code: code.co_filename == mod.__file__
-                    with trace_calls(logger, k, admit):
+                    with trace_calls(logger, k, admit, rate):
                         res = ("ok", describe(f(mod, i)))
                 else:
                     res = ("ok", describe(f(mod, i)))
@@ -122,6 +122,19 @@ def run(pid, tier, seed):
                         impl = ("true" if got["profiler_restored"] else "false", str(got["flushes"]),
                                 "ok" if got["result"][0] == "ok" else "exc")
                         chk.rel("corr.C03.traceCalls", tuple(g) == impl, dict(case, impl=impl, model=sexp.dumps(g)))
+        # the program's own state: a seeded use of the `random` module gives the same numbers with and without tracing, at
+        # every sampling rate (the sampler must not draw from the program's generator)
+        wl = "lambda m, i: m.uses_random(i)"
+        for i in range(3 if quick else 40):
+            base = execute(mod, wl, i, False, 0, FAULTS[0], tbl)
+            for rate in (None, 1, 2, 3, 10, 100):
+                chk.evaluations += 1
+                got = execute(mod, wl, i, True, 0, FAULTS[0], tbl, rate)
+                case = {"workload": "uses_random", "i": i, "sample_rate": rate}
+                if got["result"] != base["result"]:
+                    chk.fail("result-changed", dict(case, traced=got["result"], untraced=base["result"],
+                                                    detail="random.seed(i) ... traced calls ... random.random(): the numbers differ under tracing"))
+                chk.nontriv("uses_random|%d|%s" % (i, rate))
         # the model's probe list contains no unsafe operation for any generated value (and the journal above was empty)
         from .. import values
         vgen = values.Gen(tbl, chk.rng)
